@@ -12,6 +12,8 @@ require (
 	sigs.k8s.io/yaml v1.6.0
 )
 
+require go.yaml.in/yaml/v2 v2.4.2 // indirect
+
 replace github.com/SebastienMelki/sebuf => /repo
 
 replace buf.build/go/protovalidate => ./pvstub
